@@ -18,6 +18,10 @@ type c06case struct {
 	ops      []bool // true = UNION ALL
 	limit    int
 	offset   int // -1 absent
+	// kind 2 (parenthesised operands with windows of their own): shape 0 (b1 op b2 LIMIT n OFFSET m) op b3,
+	// 1 b1 op (b2 op b3 LIMIT n OFFSET m), 2 (b1 LIMIT n) op (b2 LIMIT m); limit / offset: the inner window
+	shape int
+	lim2  int // shape 2: the second operand's LIMIT; shapes 0/1: LIMIT on the whole union (-1 absent)
 }
 
 type c06 struct {
@@ -67,6 +71,28 @@ func (p *c06) Init(tier string) {
 			}
 		}
 	}
+	// parenthesised operands that carry a LIMIT / OFFSET of their own
+	for _, o1 := range []bool{false, true} {
+		for _, o2 := range []bool{false, true} {
+			for _, n := range []int{0, 1, 2} {
+				for _, m := range []int{-1, 1} {
+					for _, bs := range [][]int{{0, 2, 0}, {0, 0, 2}, {2, 1, 0}, {1, 2, 2}} {
+						for _, outer := range []int{-1, 2} {
+							p.cases = append(p.cases, c06case{kind: 2, shape: 0, branches: bs, ops: []bool{o1, o2}, limit: n, offset: m, lim2: outer},
+								c06case{kind: 2, shape: 1, branches: bs, ops: []bool{o1, o2}, limit: n, offset: m, lim2: outer})
+						}
+					}
+				}
+			}
+		}
+		for _, n := range []int{0, 1, 3} {
+			for _, m := range []int{0, 2} {
+				for _, bs := range [][]int{{0, 0}, {0, 2}, {2, 0}} {
+					p.cases = append(p.cases, c06case{kind: 2, shape: 2, branches: bs, ops: []bool{o1}, limit: n, offset: -1, lim2: m})
+				}
+			}
+		}
+	}
 	if tier == "thorough" {
 		for b1 := range c06Branches {
 			for b2 := range c06Branches {
@@ -89,25 +115,34 @@ func (p *c06) Init(tier string) {
 		{"a": 1.0, "b": "q", "o": map[string]any{"p": 1.0, "q": 2.0}, "z": 1.0},
 		{"a": 1.0, "b": "q", "o": map[string]any{"p": 1.0, "q": 2.0}, "z": 2.0},
 	}
-	maxRows := 3
-	if tier == "thorough" {
-		maxRows = 5
-	}
-	var rec func(cur []int)
-	rec = func(cur []int) {
-		rows := []any{}
-		for _, k := range cur {
-			rows = append(rows, gq.Clone(arch[k]))
+	// array-valued columns whose elements differ only in kind or in where one element ends
+	arch2 := append(append([]map[string]any{}, arch...),
+		map[string]any{"a": []any{"x y"}, "b": "q"},
+		map[string]any{"a": []any{"x", "y"}, "b": "q"},
+		map[string]any{"a": []any{1.0}, "b": "q"},
+		map[string]any{"a": []any{"1"}, "b": "q"},
+	)
+	var rec func(set []map[string]any, cur []int, from, maxRows int)
+	rec = func(set []map[string]any, cur []int, from, maxRows int) {
+		if len(cur) >= from {
+			rows := []any{}
+			for _, k := range cur {
+				rows = append(rows, gq.Clone(set[k]))
+			}
+			p.tables = append(p.tables, rows)
 		}
-		p.tables = append(p.tables, rows)
 		if len(cur) == maxRows {
 			return
 		}
-		for k := range arch {
-			rec(append(append([]int{}, cur...), k))
+		for k := range set {
+			rec(set, append(append([]int{}, cur...), k), from, maxRows)
 		}
 	}
-	rec(nil)
+	// every table of <= 3 rows over the 10 archetypes; thorough: also 4-5 rows over the first 6
+	rec(arch2, nil, 0, 3)
+	if tier == "thorough" {
+		rec(arch, nil, 4, 5)
+	}
 	// one larger table (every archetype several times, in a fixed irregular order)
 	{
 		rows := []any{}
@@ -131,6 +166,33 @@ func (p *c06) sqlOf(c *c06case) string {
 			}
 		}
 		return q
+	}
+	if c.kind == 2 {
+		op := func(all bool) string {
+			if all {
+				return " UNION ALL "
+			}
+			return " UNION "
+		}
+		win := func(n, m int) string {
+			w := ""
+			if n >= 0 {
+				w = fmt.Sprintf(" LIMIT %d", n)
+				if m >= 0 {
+					w += fmt.Sprintf(" OFFSET %d", m)
+				}
+			}
+			return w
+		}
+		b := func(i int) string { return c06Branches[c.branches[i]] }
+		switch c.shape {
+		case 0:
+			return "(" + b(0) + op(c.ops[0]) + b(1) + win(c.limit, c.offset) + ")" + op(c.ops[1]) + b(2) + win(c.lim2, -1)
+		case 1:
+			return b(0) + op(c.ops[1]) + "(" + b(1) + op(c.ops[0]) + b(2) + win(c.limit, c.offset) + ")" + win(c.lim2, -1)
+		default:
+			return "(" + b(0) + win(c.limit, -1) + ")" + op(c.ops[0]) + "(" + b(1) + win(c.lim2, -1) + ")"
+		}
 	}
 	s := c06Branches[c.branches[0]]
 	for i, op := range c.ops {
@@ -217,6 +279,27 @@ func (p *c06) RunCase(i int) *core.CaseResult {
 			}
 			want = window(want, c.limit, c.offset)
 			sig = fmt.Sprintf("C06|distinct|list=%s|window=%v|", c.list, c.limit >= 0)
+		} else if c.kind == 2 {
+			union := func(x, y []string, all bool) []string {
+				z := append(append([]string{}, x...), y...)
+				if !all {
+					z = dedupRendered(z)
+				}
+				return z
+			}
+			b := func(i int) []string { return p.branchRows(c.branches[i], rows) }
+			switch c.shape {
+			case 0:
+				want = window(union(window(union(b(0), b(1), c.ops[0]), c.limit, c.offset), b(2), c.ops[1]), c.lim2, -1)
+			case 1:
+				want = window(union(b(0), window(union(b(1), b(2), c.ops[0]), c.limit, c.offset), c.ops[1]), c.lim2, -1)
+			default:
+				want = union(window(b(0), c.limit, -1), window(b(1), c.lim2, -1), c.ops[0])
+			}
+			if len(want) > 0 {
+				r.Nontrivial = true
+			}
+			sig = fmt.Sprintf("C06|union-nested|shape=%d|", c.shape)
 		} else {
 			want = p.branchRows(c.branches[0], rows)
 			for k, all := range c.ops {
@@ -295,7 +378,7 @@ func window(rows []string, limit, offset int) []string {
 
 func (p *c06) Meta() core.Meta {
 	return core.Meta{
-		Rule: "DISTINCT cases: 7 select lists (1-3 columns incl. an object-valued one, *), each also with LIMIT 0..3 / OFFSET absent,0..2 (no ORDER BY: the window applies to the de-duplicated sequence); UNION cases: every chain of 2-3 (thorough 4) branches over 3 branch queries with every mix of UNION / UNION ALL, without and with LIMIT; each on every table of <= 3 (thorough 5) rows over 6 archetypes and one table of 41 rows chosen to collide under %v ({a:1}/{a:\"1\"}, {a:\"x b:y\",b:\"q\"}/{a:\"x\",b:\"y b:q\"}); every successfully executed Query object is executed two more times and must return the same rows; non-trivial = a duplicate was actually removed and more than one row remains",
+		Rule: "DISTINCT cases: 7 select lists (1-3 columns incl. an object-valued one, *), each also with LIMIT 0..3 / OFFSET absent,0..2 (no ORDER BY: the window applies to the de-duplicated sequence); UNION cases: every chain of 2-3 (thorough 4) branches over 3 branch queries with every mix of UNION / UNION ALL, without and with LIMIT; parenthesised operands that carry a LIMIT / OFFSET of their own (left- and right-nested unions, windowed single branches); each on every table of <= 3 rows over 10 archetypes (thorough: also 4-5 rows over the first 6) and one table of 41 rows chosen to collide under %v ({a:1}/{a:\"1\"}, {a:\"x b:y\",b:\"q\"}/{a:\"x\",b:\"y b:q\"}); every successfully executed Query object is executed two more times and must return the same rows; non-trivial = a duplicate was actually removed and more than one row remains",
 		Assumptions: []string{
 			"two rows are duplicates iff they have the same keys and type-identical values (the number 1 and the string \"1\" are different values)",
 			"chains associate to the left: (A op1 B) op2 C",
